@@ -30,10 +30,16 @@ MENUS = {
     'jumps': M('jumps', ('RW', 'ret', 'brk', 'cont'), ('if', 'ifelse', 'while', 'for'), vars_=('x',), depth=4, for_targets=('i',), ret=('x',)),
     'clos': M('clos', ('RW', 'DEFR', 'DEFW', 'DEFIFW', 'CALL', 'CALLG', 'brk'), ('if', 'while', 'for'), vars_=('x',), for_targets=('i',), ret=('x',)),
     'state': M('state', ('ATTR', 'SUB', 'AUG', 'TUP', 'RW', 'brk', 'ret'), ('if', 'while', 'for'), for_targets=('i',), ret=('x',)),
+    # the local function is reached through an alias / through another local function
+    'alias': M('alias', ('RW', 'DEFR', 'DEFW', 'ALIAS', 'CALLK', 'DEFT', 'CALLT'), ('if', 'while', 'for'), vars_=('x',), for_targets=('i',), ret=('x',)),
+    # loops with a tuple target
+    'targets': M('targets', ('RW', 'AUG', 'brk'), ('if', 'for'), vars_=('x',), for_targets=('ix',), ret=('x',)),
 }
 PLAN = {
-    'quick': [('core', 3, (('x', 'y'), ('x',))), ('jumps', 4, (('x',),)), ('clos', 3, (('x',), ())), ('state', 3, (('x', 'y'), ()))],
-    'thorough': [('core', 4, (('x', 'y'), ('x',))), ('jumps', 5, (('x',),)), ('clos', 4, (('x',), ())), ('state', 4, (('x', 'y'), ()))],
+    'quick': [('core', 3, (('x', 'y'), ('x',))), ('jumps', 4, (('x',),)), ('clos', 3, (('x',), ())), ('state', 3, (('x', 'y'), ())), ('alias', 3, (('x',), ())),
+              ('targets', 4, (('x',), ()))],
+    'thorough': [('core', 4, (('x', 'y'), ('x',))), ('jumps', 5, (('x',),)), ('clos', 4, (('x',), ())), ('state', 4, (('x', 'y'), ())), ('alias', 4, (('x',), ())),
+                 ('targets', 5, (('x',), ()))],
 }
 _S = {'tier': 'quick'}
 
@@ -95,8 +101,20 @@ class Rend(ps.Render):
       self.block(s[1], ind + 1)
     elif k == 'for':
       self.new()
-      e(ind, 'for %s in trange(m):' % s[1])
+      if s[1] == 'ix':
+        e(ind, 'for i, x in tpairs(m):')
+      else:
+        e(ind, 'for %s in trange(m):' % s[1])
       self.block(s[2], ind + 1)
+    elif k == 'ALIAS':
+      e(ind, 'k = g')
+    elif k == 'CALLK':
+      e(ind, '%s = k() + %d' % (s[1], self.new() % 5))
+    elif k == 'DEFT':
+      e(ind, 'def g2():')
+      e(ind + 1, 'return g()')
+    elif k == 'CALLT':
+      e(ind, '%s = g2() + %d' % (s[1], self.new() % 5))
     else:
       ps.Render.stmt(self, s, ind)
 
@@ -109,12 +127,19 @@ def item_source(item):
     # a function object is not data a functional backend can select / carry through a loop:
     # local functions are only defined at the top level of the function body
     for part in st[1:]:
-      if isinstance(part, tuple) and part and isinstance(part[0], tuple) and ps.contains_kind(part, ('DEFR', 'DEFW', 'DEFIFW')):
+      if isinstance(part, tuple) and part and isinstance(part[0], tuple) and ps.contains_kind(part, ('DEFR', 'DEFW', 'DEFIFW', 'ALIAS', 'DEFT')):
         return None
   if name == 'clos' and not (body and body[0][0] in ('DEFR', 'DEFW', 'DEFIFW')):
     # g must be defined before any call: a harmless first definition
     r.emit(1, 'def g():')
     r.emit(2, 'return x')
+  if name == 'alias':
+    # g, its alias k and the function g2 that calls g exist before any call
+    r.emit(1, 'def g():')
+    r.emit(2, 'return x')
+    r.emit(1, 'k = g')
+    r.emit(1, 'def g2():')
+    r.emit(2, 'return g()')
   r.block(body, 1)
   r.emit(1, 'return (%s)' % ', '.join(epi + ('zo.a', "d['k']")) if epi else "return (zo.a, d['k'])")
   return '\n'.join(r.lines) + '\n'
@@ -157,6 +182,7 @@ def run_src(src, pid, canary=False):
   api._TRANSPILER = tr    # nested conversions see the same backend
   h = diff.Harness(src, pid, extra_globals={'trange': None})
   h.g['trange'] = h.malt.experimental.do_not_convert(tracing.trange)
+  h.g['tpairs'] = h.malt.experimental.do_not_convert(tracing.tpairs)
   viol = []
   try:
     try:
